@@ -24,7 +24,8 @@ REQUIRED_FUNCTIONS = ["program.py:BlackbirdProgram.serialize", "program.py:numpy
 FUNCTIONS = REQUIRED_FUNCTIONS
 REQUIRED_TAGS = ["kind:np.int64", "kind:np.float64", "kind:np.complex128", "kind:int", "kind:float", "kind:complex", "kind:bool", "kind:str",
                  "kind:list", "kind:array:i", "kind:array:f", "kind:array:c", "kind:sympy", "options", "options-list", "np-int-modes",
-                 "neg-zero", "subnormal", "huge", "no-arglist"]
+                 "neg-zero", "subnormal", "huge", "no-arglist",
+                 "twin-array:same-object", "twin-array:equal-other-dtype", "twin-array:zeros-other-dtype", "twin-array:equal-copy"]
 ASSUMPTIONS = ["supported values as listed in the property; lists only in keyword position and options (no script can denote a positional list)",
                "names are valid NAME tokens (identifier generator); strings are printable ASCII without double quote"]
 
@@ -145,13 +146,49 @@ class Builder:
         r = self.r
         k = r.choice("ifc")
         rows, cols = r.randint(1, 5), r.randint(1, 6)
-        self.tags.add("kind:array:" + k)
         self.kinds.add("array")
+        prev = getattr(self, "_arrays", [])
+        self._arrays = prev
+        if prev and r.random() < 0.3:
+            # twins: arrays that are equal to an earlier one in some sense (same object, equal values in another dtype, same zero bytes)
+            a = r.choice(prev)
+            how = r.choice(["same-object", "equal-other-dtype", "zeros-other-dtype", "equal-copy"])
+            self.tags.add("twin-array:" + how)
+            if how == "same-object":
+                return a
+            if how == "equal-copy":
+                return a.copy()
+            if how == "equal-other-dtype":
+                if a.dtype.kind == "i" and abs(a).max() < 2 ** 50:
+                    b = a.astype(np.float64 if r.random() < 0.5 else np.complex128)
+                elif a.dtype.kind == "f":
+                    b = a.astype(np.complex128)
+                else:
+                    b = a.copy()
+                self.tags.add("kind:array:" + b.dtype.kind)
+                prev.append(b)
+                return b
+            z = np.zeros(a.shape, dtype={"i": np.float64, "f": np.int64, "c": np.int64}[a.dtype.kind])
+            z0 = np.zeros(a.shape, dtype=a.dtype)
+            self.tags.add("kind:array:" + z.dtype.kind)
+            prev.append(z)
+            self._pending_twin = z0
+            return z
+        self.tags.add("kind:array:" + k)
+        if getattr(self, "_pending_twin", None) is not None and r.random() < 0.8:
+            a, self._pending_twin = self._pending_twin, None
+            prev.append(a)
+            return a
         if k == "i":
-            return np.array([[self.i() for _ in range(cols)] for _ in range(rows)], dtype=np.int64)
-        if k == "f":
-            return np.array([[self.f() for _ in range(cols)] for _ in range(rows)], dtype=np.float64)
-        return np.array([[self.c() for _ in range(cols)] for _ in range(rows)], dtype=np.complex128)
+            a = np.array([[self.i() for _ in range(cols)] for _ in range(rows)], dtype=np.int64)
+        elif k == "f":
+            a = np.array([[self.f() for _ in range(cols)] for _ in range(rows)], dtype=np.float64)
+        else:
+            a = np.array([[self.c() for _ in range(cols)] for _ in range(rows)], dtype=np.complex128)
+        if r.random() < 0.1:
+            a = np.zeros_like(a)
+        prev.append(a)
+        return a
 
     def list_(self):
         r = self.r
